@@ -122,6 +122,11 @@ Definition topic_refs (e : element) : list ref :=
 
 Section Contract.
 Variables snake camel screaming : str -> str.
+(* [lenient = false]: the contract as the property text has it.  [lenient = true]: the same
+   contract with the enum clause waived for enums whose FIRST option ends in UNSPECIFIED under
+   a name of its own (the compiler takes that option as the zero value: known finding,
+   C02_named_zero_refuted); nothing else differs. *)
+Variable lenient : bool.
 
 (* README "Inline Types": the inline type takes the name of the field (CamelCase) unless the
    name is overridden *)
@@ -159,10 +164,34 @@ Definition fields_ok (inoneof : bool) (first : N) (ps : list property) (fs : lis
 
 (* ------------------------------------------------------------------ enums *)
 (* the declared options numbered in order after the implicit <PREFIX>UNSPECIFIED = 0; the
-   zero value may be spelled out as the first option *)
+   zero value may be spelled out as the first option (README: "explicitly included (as
+   UNSPECIFIED)"; TestEnumFlexibility: also with the prefix on) *)
 Definition enum_pfx (name : str) (e : enum) : str :=
   match e_prefix e with [] => screaming name ++ b "_" | p => p end.
 Definition opt_value_name (pfx o : str) : str := if has_prefix pfx o then o else pfx ++ o.
+(* the option spells the zero value: UNSPECIFIED or <PREFIX>UNSPECIFIED *)
+Definition zero_spelled (pfx o : str) : bool := str_eqb (opt_value_name pfx o) (pfx ++ b "UNSPECIFIED").
+Definition strict_opts (name : str) (e : enum) : list str :=
+  match e_opts e with
+  | o :: r => if zero_spelled (enum_pfx name e) o then r else o :: r
+  | [] => []
+  end.
+(* the first option ends in UNSPECIFIED without spelling the zero value (OLD_UNSPECIFIED) *)
+Definition named_zero (name : str) (e : enum) : bool :=
+  match e_opts e with
+  | o :: _ => has_suffix (b "UNSPECIFIED") o && negb (zero_spelled (enum_pfx name e) o)
+  | [] => false
+  end.
+Definition enum_ok (name : str) (e : enum) (de : denum) : Prop :=
+  en_name de = name /\
+  ((lenient = true -> named_zero name e = false) ->
+   nth_error (en_vals de) 0 = Some (enum_pfx name e ++ b "UNSPECIFIED", 0) /\
+   length (en_vals de) = S (length (strict_opts name e)) /\
+   forall i o, nth_error (strict_opts name e) i = Some o ->
+     nth_error (en_vals de) (S i) = Some (opt_value_name (enum_pfx name e) o, N.of_nat (S i))).
+
+(* what the compiler does (any first option ending in UNSPECIFIED is the zero value): used for
+   the linker's symbol table only (J5sSymbols), not by the contract *)
 Definition declared_opts (e : enum) : list str :=
   match e_opts e with
   | o :: r => if has_suffix (b "UNSPECIFIED") o then r else o :: r
@@ -174,12 +203,6 @@ Definition zero_value_name (name : str) (e : enum) : str :=
               else enum_pfx name e ++ b "UNSPECIFIED"
   | [] => enum_pfx name e ++ b "UNSPECIFIED"
   end.
-Definition enum_ok (name : str) (e : enum) (de : denum) : Prop :=
-  en_name de = name /\
-  nth_error (en_vals de) 0 = Some (zero_value_name name e, 0) /\
-  length (en_vals de) = S (length (declared_opts e)) /\
-  forall i o, nth_error (declared_opts e) i = Some o ->
-    nth_error (en_vals de) (S i) = Some (opt_value_name (enum_pfx name e) o, N.of_nat (S i)).
 
 (* the names of the nested messages / enums a list of properties gives rise to, in order:
    nothing else may be nested (exactness) *)
